@@ -166,6 +166,37 @@ example (ε : ℚ) (hε : 0 ≤ ε) :
     (by intro i; simpa using hε) (by intro j; simpa using hε) (by intro i; simpa using hε)
     (by simp; positivity)).1
 
+/-- componentwise bound from a 2-norm bound: `∑ r_i² ≤ ε²` ⇒ `|r_i| ≤ ε` -/
+theorem abs_le_of_sum_sq_le {k : ℕ} (r : Fin k → ℚ) (ε : ℚ) (hε : 0 ≤ ε) (h : ∑ i, r i ^ 2 ≤ ε ^ 2)
+    (i : Fin k) : |r i| ≤ ε :=
+  abs_le_of_sq_le_sq (le_trans (Finset.single_le_sum (f := fun i => r i ^ 2)
+    (fun i _ => sq_nonneg (r i)) (Finset.mem_univ i)) h) hε
+
+/-- **[C] (interior point verdict logic)** the code's `OPTIMAL` test
+`primal_inf < eps and dual_inf < eps and mu < eps` (2-norms of `rb = A x + s − b` and of
+`rc = Aᵀy + z − c` over structural and slack columns, `mu = x·z/(n+m)`) implies the hypotheses of
+`approx_duality`, hence its three conclusions, with `ε = eps`. -/
+theorem ipm_optimal_test_sound (ε : ℚ) (hε : 0 ≤ ε) (x zx : Fin n → ℚ) (s y zs : Fin m → ℚ)
+    (hx : ∀ j, 0 ≤ x j) (hs : ∀ i, 0 ≤ s i) (hzx : ∀ j, 0 ≤ zx j) (hzs : ∀ i, 0 ≤ zs i)
+    (hprimal : ∑ i, (∑ j, P.A i j * x j + s i - P.b i) ^ 2 ≤ ε ^ 2)
+    (hdual : ∑ j, (∑ i, y i * P.A i j + zx j - P.c j) ^ 2 + ∑ i, (y i + zs i) ^ 2 ≤ ε ^ 2)
+    (hmu : (∑ j, zx j * x j + ∑ i, zs i * s i) / ((n : ℚ) + m) ≤ ε) (hnm : 0 < (n : ℚ) + m) :
+    P.FeasTol ε x ∧
+    (∀ x', P.Feasible x' →
+      P.obj x - P.obj x' ≤ ε * (∑ i, |y i| + ((n : ℚ) + m) + ∑ j, x j + ∑ i, s i + ∑ j, x' j
+        + ∑ i, (P.b i - ∑ j, P.A i j * x' j))) ∧
+    (∀ (xs : Fin n → ℚ) (ys : Fin m → ℚ), P.Feasible xs → (∀ i, 0 ≤ ys i) →
+      (∀ j, 0 ≤ P.c j + ∑ i, ys i * P.A i j) → P.obj xs = -(∑ i, ys i * P.b i) →
+      P.obj xs - P.obj x ≤ ε * ∑ i, ys i) := by
+  have h1 : 0 ≤ ∑ j, (∑ i, y i * P.A i j + zx j - P.c j) ^ 2 := Finset.sum_nonneg fun j _ => sq_nonneg _
+  have h2 : 0 ≤ ∑ i, (y i + zs i) ^ 2 := Finset.sum_nonneg fun i _ => sq_nonneg _
+  refine approx_duality P ε hε x zx s y zs hx hs hzx hzs
+    (abs_le_of_sum_sq_le _ ε hε hprimal)
+    (abs_le_of_sum_sq_le _ ε hε (by linarith))
+    (abs_le_of_sum_sq_le _ ε hε (by linarith)) ?_
+  have := (div_le_iff₀ hnm).mp hmu
+  linarith
+
 end spec
 
 /-! ### The Bool checkers the driver evaluates (list data) are sound for the spec -/
